@@ -24,6 +24,7 @@ ops::Plan warmup_plan(Context &gc);
 
 // C11
 int c11_worker(uint64_t seed, uint64_t from, uint64_t to, uint64_t step, double budget_s, uint64_t samples, const std::string &tier, const std::string &mode);
-int c11_replay(const rt::JVal &plan, bool trace);
+int c11_replay(const rt::JVal &plan, bool trace, bool quiet = false);
+std::string c11_genplan(uint64_t run_seed, uint64_t index, const std::string &tier, const std::string &mode);
 
 } // namespace gen
